@@ -69,6 +69,14 @@ func process1MapMerge(obj map[string]any, mergeFrom *Document, mergeFromDocs []*
 		return nil, err
 	}
 
+	// The referenced subtree may lie inside obj itself ($merge: c next to a
+	// key c); merging it in while it is being modified made the result
+	// depend on map iteration order. Merge a private copy.
+	in, err = deepClone(in)
+	if err != nil {
+		return nil, err
+	}
+
 	next, err := mergeMap(obj, in)
 	if err != nil {
 		return nil, err
